@@ -109,8 +109,10 @@ def make_ops(rng, cfg, profile, tier):
     ops = []
     for _ in range(rng.randrange(4, 22)):
         r = rng.random()
-        if r < 0.16:
+        if r < 0.13:
             ops.append({'op': 'CONFIGURE', 'a': [rng.randrange(1 << 30), rng.randrange(1 << 30)]})
+        elif r < 0.16:
+            ops.append({'op': 'RECONFIGURE', 'a': [rng.randrange(1 << 30), rng.randrange(64), rng.randrange(1, 4)]})
         elif r < 0.28:
             ops.append({'op': 'SELECT', 'a': [rng.randrange(64), rng.randrange(-1, 6)]})
         elif r < 0.5:
@@ -369,6 +371,23 @@ class Session:
             self.expr.configure_catalogs(Configuration.from_string(the_id))
             self.model = target
             self.check_state(kind)
+            ctx.log(kind, the_id)
+        elif kind == 'RECONFIGURE':
+            # the same configuration requested twice with a move of one controller in between
+            rng = random.Random(a[0])
+            target = {c: rng.randrange(len(self.member_names[c])) for c in self.used_ctrls}
+            the_id = self.model_id(target)
+            self.expr.configure_catalogs(Configuration.from_string(the_id))
+            self.model = dict(target)
+            self.check_state(kind)
+            c = self.used_ctrls[a[1] % len(self.used_ctrls)]
+            idx = (target[c] + a[2]) % len(self.member_names[c])
+            self.expr.select_expression(c, idx)
+            self.model[c] = idx
+            self.check_state(kind)
+            self.expr.configure_catalogs(Configuration.from_string(the_id))
+            self.model = dict(target)
+            self.check_state(f'{kind} (second request of the same configuration)')
             ctx.log(kind, the_id)
         elif kind == 'SELECT':
             c = self.used_ctrls[a[0] % len(self.used_ctrls)]
